@@ -377,7 +377,7 @@ let handle (line : string) : string =
             | Ok _ -> "(bad-use)"
             | other -> show_res (fun _ -> "") other)
        | _ -> "(no-transformer)")
-  | ["RUNBIN"; dir; file] ->
+  | ["RUNBIN"; dir; file] | ["RUNBIN"; dir; file; _] ->
       (* `ruschm FILE`: a fresh interpreter without the standard library *)
       let fs = !w_fs in
       reset (); w_fs := fs;
